@@ -1,6 +1,7 @@
 //! avrosim - deterministic simulation with fault injection for apache-avro.
 
 mod anyvalue;
+mod c03;
 mod c06;
 mod c13;
 mod c14;
@@ -23,6 +24,10 @@ fn usage() -> ! {
 macro_rules! dispatch {
     ($id:expr, $p:ident => $body:expr) => {
         match $id {
+            "C03" => {
+                let $p = c03::C03;
+                $body
+            }
             "C06" => {
                 let $p = c06::C06;
                 $body
